@@ -278,8 +278,14 @@ def r10_7(prog, tab):
         seen = {}
         for b, i, e, targets in sorted(cg.sites[f.key], key=lambda x: (x[2].get("line") or 0, x[0].id, x[1])):
             tg = [t for t in targets if t in sf]
-            if not tg or "callee" not in e:
+            if not tg:
                 continue
+            if "callee" not in e:
+                # a call through a function pointer field (arg->default_cb) whose possible targets can fail
+                if not e.get("slot"):
+                    continue
+                e = dict(e)
+                e["callee"] = "->" + e["slot"]
             seen[e["callee"]] = seen.get(e["callee"], 0) + 1
             key = "%s#%d" % (e["callee"], seen[e["callee"]])
             use = e.get("use")
@@ -481,6 +487,119 @@ def r10_10(prog, tab, rid="R10.10", only=None, floor=100):
     return r
 
 
+def r10_12(prog):
+    """A type the code generator claims to implement has its skeleton.  Every row of the language map asn1_lang_C whose
+    handler writes `#include <Type.h>` for a built-in type (asn1c_lang_C_type_SIMPLE_TYPE, ..._REAL: the include name is
+    the type's name from asn1p_expr_type2str with spaces turned into `_`) names a header that exists
+    in skeletons/.  A row without a skeleton makes asn1c exit 0 with code that cannot be compiled; without the row the
+    type is refused (`Cannot compile`, non-zero exit)."""
+    import os
+    import re as _re
+    from .. import extract
+    r = Rule("R10.12", "every built-in type mapped to the simple-type generator has a skeleton header of that name", floor=20)
+    rows = names = None
+    for g in prog.globals:
+        if g["name"] == "asn1_lang_C" and g.get("init"):
+            rows = g["init"]
+        if g["name"] == "asn1p_expr_type2str" and g.get("definition") and g.get("init"):
+            names = g["init"]
+    if not rows or not names:
+        raise AnalysisBroken("asn1_lang_C / asn1p_expr_type2str initialisers not found")
+    f = prog.require("asn1c_lang_C_type_SIMPLE_TYPE")
+    skel = os.path.join(extract.get_repo(), "skeletons")
+    for row in rows:
+        if not isinstance(row, dict) or row.get("type_cb") not in ("fn:asn1c_lang_C_type_SIMPLE_TYPE", "fn:asn1c_lang_C_type_REAL"):
+            continue
+        if row.get("meta_match") != 1:
+            continue
+        idx = row.get("expr_match")
+        nm = names[idx] if isinstance(idx, int) and idx < len(names) else None
+        if not (isinstance(nm, str) and nm.startswith("str:")):
+            continue
+        nm = nm[4:]
+        hdr = nm.replace(" ", "_") + ".h"       # TNF_INCLUDE: asn1c_make_identifier(AMI_MASK_ONLY_SPACES ...)
+        key = "asn1_lang_C[%s]" % nm
+        if os.path.exists(os.path.join(skel, hdr)):
+            r.ok(f, key, "skeletons/%s exists" % hdr, f.line)
+        else:
+            r.bad(f, key, "the language map sends `%s` to the simple-type generator, which writes #include <%s>, and skeletons/ has no such "
+                          "file: asn1c exits 0 and the output does not compile" % (nm, hdr), f.line)
+    return r
+
+
+def r10_13(prog):
+    """The text of a user's string value never ends a C comment.  Wherever the code generator's format literal places a
+    `%s` inside a `/* ... */` comment, the corresponding argument is not the text of a value taken from the
+    specification (asn1f_printable_value(...), `...value.string.buf`) unless it passes through asn1c_comment_safe();
+    identifiers, type names and numbers cannot contain `*/`.  `DEFAULT "x*/y"` otherwise closes the comment and the
+    emitted header does not compile while asn1c exits 0."""
+    import re as _re
+    r = Rule("R10.13", "a value's text spliced by %s into an emitted C comment goes through the comment-safe filter", floor=10)
+    for f in sorted(prog.funcs.values(), key=lambda f: f.key):
+        if "libasn1compiler/" not in f.relfile:
+            continue
+        n = 0
+        for b, i, e in f.calls():
+            if e.get("callee") != "asn1c_compiled_output":
+                continue
+            args = e.get("args", [])
+            lit = None
+            for ai, a in enumerate(args):
+                t = strip_casts(a.get("tree"))
+                if isinstance(t, list) and t and t[0] == "str" and ai >= 4:
+                    lit = (ai, t[1])
+                    break
+            if not lit:
+                continue
+            ai, fmt = lit
+            # conversion specifications, and which of them lie inside a comment of this literal
+            pos = 0
+            incomment = False
+            k = 0
+            j = 0
+            while j < len(fmt):
+                if fmt.startswith("/*", j):
+                    incomment = True
+                    j += 2
+                    continue
+                if fmt.startswith("*/", j):
+                    incomment = False
+                    j += 2
+                    continue
+                if fmt[j] == "%":
+                    m = _re.match(r"%[-+ #0-9.*lzhjt]*([a-zA-Z%])", fmt[j:])
+                    if not m:
+                        j += 1
+                        continue
+                    if m.group(1) != "%":
+                        argi = ai + 1 + k
+                        k += 1
+                        if m.group(1) == "s" and incomment and argi < len(args):
+                            n += 1
+                            at = args[argi].get("tree")
+                            key = "comment-%%s#%d" % n
+                            st = strip_casts(at)
+                            user = False
+                            why = None
+                            filt = isinstance(st, list) and st and st[0] == "call" and st[2] == "asn1c_comment_safe"
+                            for nd in walk(at):
+                                if nd[0] == "call" and nd[2] == "asn1f_printable_value":
+                                    user, why = True, "asn1f_printable_value()"
+                                if nd[0] == "member" and nd[2] == "buf" and any(x[0] == "member" and x[2] == "string" for x in walk(nd)):
+                                    user, why = True, "a string value's buffer"
+                            if not user:
+                                r.ok(f, key, "the argument (%s) is not a value's text" % tree_text(at)[:40], e["line"], nontrivial=False)
+                            elif filt:
+                                r.ok(f, key, "the value's text passes through asn1c_comment_safe()", e["line"])
+                            else:
+                                r.bad(f, key, "%s is spliced into the comment `%s` unfiltered: a value containing `*/` ends the comment and the rest "
+                                              "of the text is compiled as C" % (why, fmt.strip()[:40]), e["line"])
+                    j += len(m.group(0))
+                    continue
+                j += 1
+    return r
+
+
 def run(ctx):
     prog = ctx.prog("K")
     tab = load_tables("c10")
@@ -498,6 +617,8 @@ def run(ctx):
     rules.append(r10_7(prog, tab))
     rules.append(r10_8(prog, tab))
     rules.append(r10_10(prog, tab))
+    rules.append(r10_12(prog))
+    rules.append(r10_13(prog))
     # R10.9: asn1c terminates: exact rule over every loop of the compiler
     from . import termination
     rules.append(termination.rule_for(prog, "R10.9", "the compiler (parser actions, fixer, printer, code generator)", set(prog.funcs.keys()), 250))
